@@ -218,6 +218,9 @@ class OperatorAnd(OperatorBase):
     
     def operate_binary(self, tokens):
         left, right = tokens.get_left(), tokens.get_right()
+        if right is None or isinstance(right, OperatorBase):
+            # a short-circuiting atom would otherwise never look at the missing operand
+            raise Exception("Missing right operand of operator", self.symbol)
         tokens.put_left(left.logical_and(right))
 
 class OperatorOr(OperatorBase):
@@ -226,6 +229,9 @@ class OperatorOr(OperatorBase):
     
     def operate_binary(self, tokens):
         left, right = tokens.get_left(), tokens.get_right()
+        if right is None or isinstance(right, OperatorBase):
+            # a short-circuiting atom would otherwise never look at the missing operand
+            raise Exception("Missing right operand of operator", self.symbol)
         tokens.put_left(left.logical_or(right))
 
 class OperatorNot(OperatorBase):
